@@ -50,7 +50,7 @@ INFO_FLAGGED = [0, 0, 0, 4, 8, 4 + 8, 1024, 2048, 2048 + 4]
 def translate():
     from translator import registry
 
-    return registry.generate("Interp", "Constants", "KernelsInterp")
+    return registry.generate("Interp", "Constants", "KernelsInterp", "KernelsInterpStep")
 
 
 # --------------------------------------------------------------------------------------------
@@ -597,6 +597,64 @@ def translator_cross_check(ctx, report, status):
             status.problem("translator", f"direction table of {fn} differs between translator and live source")
 
 
+def step_cross_check(ctx, report, status):
+    """T15 (interpolation step): the real `interpolated_disparity` of both classes against the statement list
+    `Generated/KernelsInterpStep.lean` is printed from, run with the REAL compiled kernels and the real `mask_border` as
+    primitives (the kernels themselves are validated by `kernel_cross_check`).  Compared: the two arrays the dataset holds
+    afterwards, that they are NOT the arrays it held before (fresh), and that those keep their content (frame)."""
+    import random
+
+    import numpy as np
+
+    from ..impl import interp_adapter as ia
+    from ..impl import interp_kernels_check as ikc
+    from translator import gen_kernels_interp_step as gs
+
+    try:
+        fs = gs.functions()
+    except Exception:  # already reported by build_and_audit (translate())  # pylint: disable=broad-except
+        return
+    from pandora import validation
+    from pandora.criteria import mask_border as real_mask_border
+    from pandora.validation.interpolated_disparity import McCnnInterpolation, SgmInterpolation
+
+    kernels = {"occlusionMcCnnPx": McCnnInterpolation.interpolate_occlusion_mc_cnn, "mismatchMcCnnPx": McCnnInterpolation.interpolate_mismatch_mc_cnn,
+               "occlusionSgmPx": SgmInterpolation.interpolate_occlusion_sgm, "mismatchSgmPx": SgmInterpolation.interpolate_mismatch_sgm}
+
+    def border(mask, off):  # mask_border works on a dataset, in place on its validity mask
+        ds = ia.dataset([[0] * mask.shape[1]] * mask.shape[0], mask.tolist(), off)
+        ds["validity_mask"].data = mask
+        return real_mask_border(ds).data
+
+    rng = random.Random(1414 + ctx.seed)
+    n = ctx.n(60, 600)
+    for _ in range(n):
+        disp, flag = ikc.flagged_map(rng)
+        rows, cols = len(flag), len(flag[0])
+        off = rng.choice([0, 0, 1, 2]) if min(rows, cols) > 4 else rng.choice([0, 0, 1]) if min(rows, cols) > 2 else 0
+        for meth, lean in (("mc-cnn", "interpolatedDisparityMcCnn"), ("sgm", "interpolatedDisparitySgm")):
+            ds = ia.dataset(disp, flag, off)
+            d0, f0 = ds["disparity_map"].data, ds["validity_mask"].data
+            d0c, f0c = d0.copy(), f0.copy()
+            try:
+                validation.AbstractInterpolation(**{"interpolated_disparity": meth}).interpolated_disparity(ds)
+            except Exception:  # pylint: disable=broad-except
+                continue  # judged by the main stream
+            e_d0, e_f0 = d0c.copy(), f0c.copy()
+            want_d, want_f = gs.evaluate(fs[lean], kernels, border, e_d0, e_f0, off)
+            got_d, got_f = ds["disparity_map"].data, ds["validity_mask"].data
+            report.translator_checks += 1
+            ok_val = np.array_equal(got_d, want_d, equal_nan=True) and np.array_equal(got_f, want_f)
+            ok_frame = (np.array_equal(d0, e_d0, equal_nan=True) and np.array_equal(f0, e_f0)
+                        and (got_d is d0) == (want_d is e_d0) and (got_f is f0) == (want_f is e_f0))
+            ok_attr = ds.attrs.get("interpolated_disparity") == fs[lean]["attr"]
+            if not (ok_val and ok_frame and ok_attr):
+                status.problem("translator", f"translated {meth} interpolated_disparity differs from the real method on a {rows}x{cols} map, offset "
+                               f"{off} (values {ok_val}, arrays held before the call / freshness {ok_frame}, attribute {ok_attr})")
+                return
+    report.count("step_cross_check_maps", n)
+
+
 def run(ctx, report, status):
     rng = ctx.rng
     report.rule = (
@@ -614,6 +672,7 @@ def run(ctx, report, status):
     # the kernels regenerated from the source (Generated/KernelsInterp.lean): real numba functions vs the translator's evaluator
     from ..impl import interp_kernels_check
     interp_kernels_check.kernel_cross_check(ctx, report, status)
+    step_cross_check(ctx, report, status)
     v = source_variant()
     report.count("model_variant_read_from_source:" + v)
     if v == "unknown":
